@@ -94,7 +94,9 @@ func ParseConfig(b []byte) (*Config, error) {
 		msg := strings.ReplaceAll(err.Error(), "\n", " ")
 		return nil, errors.New(msg)
 	}
-	for pat := range c.Paths {
+	// Check the patterns in sorted order so that the same pattern is reported every time when two
+	// or more of them are invalid
+	for _, pat := range sortedMapKeys(c.Paths) {
 		if !doublestar.ValidatePattern(pat) {
 			return nil, fmt.Errorf("invalid glob pattern %q in \"paths\"", pat)
 		}
